@@ -24,10 +24,13 @@ ASSUMPTIONS = ['hypotheses allowed in a result = hypotheses of ProofTerm / Thm o
 REQUIRED = {'quick': {'outer_calls_judged': 4000, 'exports_checked': 300, 'canon_pairs:nat': 150, 'canon_pairs:int': 150,
                       'canon_pairs:real': 150, 'canon_pairs:prop': 300, 'lib_outer_calls': 300, 'levels_pairs': 60,
                       'levels_order:limited-first': 20, 'levels_order:full-first': 20,
-                      'comb_terms_with_binder_named_like_a_free_variable': 60},
+                      'comb_terms_with_binder_named_like_a_free_variable': 60,
+                      'spell_groups': 16, 'spell_groups:exponent-2': 5, 'spell_groups:exponent-3': 6, 'spell_groups:exponent-4': 2,
+                      'spell_groups:nested': 3, 'spell_terms_normalised:auto.auto_conv': 60},
             'thorough': {'outer_calls_judged': 80000, 'exports_checked': 6000, 'canon_pairs:nat': 3000, 'canon_pairs:int': 3000,
                          'canon_pairs:real': 3000, 'canon_pairs:prop': 6000, 'lib_outer_calls': 10000, 'levels_pairs': 2000,
-                         'levels_order:limited-first': 700, 'levels_order:full-first': 700}}
+                         'levels_order:limited-first': 700, 'levels_order:full-first': 700,
+                         'spell_groups': 300, 'spell_groups:exponent-3': 80, 'spell_groups:nested': 40}}
 SHARD_TIMEOUT = {'quick': 1500, 'thorough': 7200}
 
 NAT, INT, REAL, B = S.NAT, S.INT, S.REAL, S.BOOL
@@ -38,6 +41,7 @@ def shards(tier, seed):
     out = [{'kind': 'canon', 'dom': d, 'i': i, 'count': 60 if q else 800} for d in ('nat', 'int', 'real') for i in range(3 if q else 4)]
     out += [{'kind': 'canon', 'dom': 'prop', 'i': i, 'count': 220 if q else 2000} for i in range(2 if q else 3)]
     out += [{'kind': 'comb', 'i': 0, 'count': 500 if q else 6000}]
+    out += [{'kind': 'spell', 'i': i, 'count': 20 if q else 160} for i in range(1 if q else 3)]
     out += [{'kind': 'levels', 'i': i, 'count': 120 if q else 1500} for i in range(1 if q else 3)]
     out += [{'kind': 'lib', 'i': i, 'parts': 4 if q else 24, 'frac': 0.05 if q else 1.0} for i in range(4 if q else 24)]
     return out
@@ -361,6 +365,181 @@ def run_canon_arith(ctx, spec):
                  sample={'dom': dom, 'e1': S.tm_str(e1), 'e2': S.tm_str(e2), 'normal_form': S.tm_str(r1)} if k < 1 and spec['i'] == 0 else None)
 
 
+# ------------------------------------------------------------------ directed family: one power of a sum, several spellings
+def pw(T, base, n):
+    return S.mk_comb(A.c('power', S.funs(T, NAT, T)), base, A.num(NAT, n))
+
+
+def spell_monomial(rng, T, vars_, allow_const=True):
+    """coefficient * (at most two variable powers); shadow term"""
+    coef = rng.choice([1, 1, 1, 2, 3, -1, -2, Fraction(1, 2)])
+    nv = rng.choice([0, 1, 1, 1, 2] if allow_const else [1, 1, 1, 2])
+    fs = []
+    for v in rng.sample(vars_, nv):
+        e = rng.choice([1, 1, 1, 2])
+        fs.append(v if e == 1 else pw(T, v, e))
+    if not fs:
+        return A.num(T, coef if coef != 1 else rng.choice([1, 2, 5]))
+    t = fs[0]
+    for f in fs[1:]:
+        t = A.binop('times', T, t, f)
+    if coef == -1 and rng.random() < 0.5:
+        return ('comb', A.c('uminus', S.fun(T, T)), t)
+    return t if coef == 1 else A.binop('times', T, A.num(T, coef), t)
+
+
+def spell_sum(rng, T, members):
+    """the members joined by + / - with a random nesting (so the top is not always a literal plus)"""
+    ms = list(members)
+    while len(ms) > 1:
+        i = rng.randrange(len(ms) - 1)
+        op = 'minus' if rng.random() < 0.25 else 'plus'
+        ms[i:i + 2] = [A.binop(op, T, ms[i], ms[i + 1])]
+    return ms[0]
+
+
+def spell_variant(rng, T, base):
+    """the same sum with its top operands commuted (only for a literal plus)"""
+    h, args = S.strip_comb(base)
+    if h[0] == 'const' and h[1] == 'plus' and len(args) == 2 and rng.random() < 0.5:
+        return A.binop('plus', T, args[1], args[0])
+    return base
+
+
+def spellings(rng, T, base, n):
+    """[(name, term)] all equal to base^n as polynomials.  Literal exponents of a sum stay <= 3 (real_nat_power_conv
+    documents that larger literal powers of a sum are left unexpanded); exponent 4 is written through squares, cubes
+    and products."""
+    b = lambda: spell_variant(rng, T, base)
+    mul = lambda *xs: xs[0] if len(xs) == 1 else A.binop('times', T, mul(*xs[:-1]), xs[-1])
+    if n == 2:
+        return [('power', pw(T, base, 2)), ('product', mul(base, b())), ('power-of-commuted', pw(T, b(), 2))]
+    if n == 3:
+        return [('power', pw(T, base, 3)), ('product', mul(base, b(), b())),
+                ('product-right-nested', A.binop('times', T, base, mul(b(), b()))),
+                ('base-times-square', mul(b(), pw(T, base, 2))), ('square-times-base', mul(pw(T, base, 2), b()))]
+    return [('square-of-square', pw(T, pw(T, base, 2), 2)), ('square-times-square', mul(pw(T, base, 2), pw(T, b(), 2))),
+            ('base-times-cube', mul(b(), pw(T, base, 3))), ('cube-times-base', mul(pw(T, base, 3), b())),
+            ('product', mul(base, b(), b(), b()))]
+
+
+def run_spell(ctx, spec):
+    """Directed family for the rule that unfolds small powers of a sum in the real normaliser behind auto.auto_conv
+    (data.real.real_nat_power_conv with real_pow_2 / real_pow_3 and distribution): groups of polynomially equal real
+    terms that differ only in how one power of a sum is spelled - literal power, product, mixed power * product,
+    commuted copies - for exponents 2, 3, 4, sums of 2-3 monomials (with subtraction, negative and fractional
+    coefficients), also nested (a spelled power inside the sum that is raised again) and inside a context.  All
+    normal forms of one group must coincide, have the value of the input at random points and be fixed points;
+    spelled1 - spelled2 must normalise to 0.  The same groups are given to real.real_norm_conv.  Powers of single
+    monomials and of numerals are controls."""
+    from logic import basic, auto
+    rng = ctx.rng
+    T = REAL
+    install(ctx)
+    basic.load_theory('real')
+    from data import real
+    vars_ = [var(n, T) for n in ('x', 'y', 'z')]
+    Mon.origin = 'spell'
+    Mon.export_every = 8
+    convs = [('auto.auto_conv', auto.auto_conv), ('real.real_norm_conv', real.real_norm_conv)]
+    plan = [(3, 2, False), (2, 2, False), (4, 2, False), (3, 3, False), (3, 2, True), (2, 3, False), (3, 2, False), (2, 2, True)]
+    for k in range(spec['count']):
+        n, nm, nested = plan[k % len(plan)] if k < 2 * len(plan) else (rng.choice([2, 3, 3, 3, 4]), rng.choice([2, 2, 3]), rng.random() < 0.25)
+        if n == 4 and nm == 3:
+            nm = 2
+        members = [spell_monomial(rng, T, vars_, allow_const=(j > 0)) for j in range(nm)]
+        inner_sp = None
+        if nested:
+            ib = spell_sum(rng, T, [spell_monomial(rng, T, vars_[:2], allow_const=(j > 0)) for j in range(2)])
+            inner_n = 2 if n >= 3 else rng.choice([2, 3])
+            inner_sp = spellings(rng, T, ib, inner_n)
+            members = members[:1] + [inner_sp[0][1]]
+            if n == 4:
+                n = 2
+        base = spell_sum(rng, T, members)
+        group = spellings(rng, T, base, n)
+        if nested:
+            # the inner power re-spelled inside one more copy of the outer power
+            alt = rng.choice(inner_sp[1:])
+            base2 = S.mk_comb(*[alt[1] if x == inner_sp[0][1] else x for x in ((lambda h, a: [h] + list(a))(*S.strip_comb(base)))])
+            group.append(('inner-' + alt[0], pw(T, base2, n) if n <= 3 else pw(T, pw(T, base2, 2), 2)))
+        kind = 'sum'
+        if rng.random() < 0.15 and not nested:
+            # controls: power of one monomial / of a numeral
+            base = spell_monomial(rng, T, vars_, allow_const=rng.random() < 0.3)
+            group = spellings(rng, T, base, n)
+            kind = 'monomial-control'
+        ctxm = rng.choice(['none', 'none', 'plus', 'times', 'minus-other-spelling'])
+        if ctxm in ('plus', 'times'):
+            m = spell_monomial(rng, T, vars_)
+            group = [(nm_, A.binop(ctxm, T, e, m) if rng.random() < 0.5 else A.binop(ctxm, T, m, e)) for nm_, e in group]
+        terms = [e for _, e in group]
+        if any(values_agree(rng, terms[0], e, vars_, T) is not True for e in terms[1:]):
+            ctx.count('harness_spellings_not_value_preserving')
+            continue
+        ctx.count('spell_groups')
+        ctx.count('spell_groups:exponent-%d' % n)
+        ctx.count('spell_groups:%s-of-%d-members' % (kind, len(members) if kind == 'sum' else 1))
+        if nested:
+            ctx.count('spell_groups:nested')
+        if ctxm != 'none':
+            ctx.count('spell_groups:in-context-' + ctxm)
+        tag = 'exponent-%d%s' % (n, ':nested' if nested else '')
+        for cname, mk in convs:
+            nfs = []
+            for nm_, e in group:
+                try:
+                    r = S.tm_shadow(mk().get_proof_term(S.to_repo_term(e)).th.prop.arg)
+                    ctx.count('spell_terms_normalised:' + cname)
+                    nfs.append((nm_, e, r))
+                except Exception as ex:
+                    ctx.count('spell_raised:%s:%s' % (cname, type(ex).__name__))
+            if len(nfs) < 2:
+                continue
+            n0, e0, r0 = nfs[0]
+            for nm_, e, r in nfs[1:]:
+                ctx.count('spell_pairs_compared:' + cname)
+                if not S.aeq(r, r0):
+                    ctx.violation('canon:real:power-of-a-sum-not-unfolded-like-the-product:%s:%s' % (cname, tag),
+                                  '%s: [%s] %s -> %s but the polynomially equal [%s] %s -> %s' % (cname, n0, S.tm_str(e0), S.tm_str(r0), nm_, S.tm_str(e), S.tm_str(r)),
+                                  {'dom': 'real', 'conv': cname, 'e1': S.jsonable(e0), 'e2': S.jsonable(e), 'spelling1': n0, 'spelling2': nm_, 'exponent': n})
+                    break
+            if values_agree(rng, e0, r0, vars_, T) is False:
+                ctx.violation('canon:real:normal-form-has-a-different-value:' + cname, '%s normalised to %s' % (S.tm_str(e0), S.tm_str(r0)),
+                              {'dom': 'real', 'conv': cname, 'e1': S.jsonable(e0)})
+            try:
+                r3 = S.tm_shadow(mk().get_proof_term(S.to_repo_term(r0)).th.prop.arg)
+                ctx.count('spell_idempotence:' + cname)
+                if not S.aeq(r3, r0):
+                    ctx.violation('canon:real:normalising-a-normal-form-changes-it:' + cname, '%s -> %s -> %s' % (S.tm_str(e0), S.tm_str(r0), S.tm_str(r3)),
+                                  {'dom': 'real', 'conv': cname, 'e1': S.jsonable(e0)})
+            except Exception as ex:
+                ctx.count('spell_idem_raised:%s:%s' % (cname, type(ex).__name__))
+            if ctxm == 'minus-other-spelling' and len(group) >= 2:
+                # spelled1 - spelled2 = 0
+                (na, ea), (nb, eb) = group[0], rng.choice(group[1:])
+                d = A.binop('minus', T, ea, eb)
+                try:
+                    rd = S.tm_shadow(mk().get_proof_term(S.to_repo_term(d)).th.prop.arg)
+                    ctx.count('spell_differences_normalised:' + cname)
+                    if not S.aeq(rd, A.num(T, 0)):
+                        ctx.violation('canon:real:power-of-a-sum-not-unfolded-like-the-product:%s:%s' % (cname, tag),
+                                      '%s: difference of the spellings %s and %s: %s -> %s (expected 0)' % (cname, na, nb, S.tm_str(d), S.tm_str(rd)),
+                                      {'dom': 'real', 'conv': cname, 'e1': S.jsonable(d), 'exponent': n})
+                except Exception as ex:
+                    ctx.count('spell_raised:%s:%s' % (cname, type(ex).__name__))
+            if cname == 'auto.auto_conv' and n == 2 and kind == 'sum' and not nested and ctxm == 'none':
+                # observed, not judged: a literal exponent >= 4 of a sum is documented as left unexpanded
+                try:
+                    r4 = S.tm_shadow(mk().get_proof_term(S.to_repo_term(pw(T, base, 4))).th.prop.arg)
+                    rp = S.tm_shadow(mk().get_proof_term(S.to_repo_term(pw(T, pw(T, base, 2), 2))).th.prop.arg)
+                    ctx.count('spell_observed:literal-4th-power-of-a-sum-' + ('expanded-like-square-of-square' if S.aeq(r4, rp) else 'left-opaque-unlike-square-of-square'))
+                except Exception as ex:
+                    ctx.count('spell_observe_raised:' + type(ex).__name__)
+        ctx.case(('spell', tuple(terms)), nontrivial=True,
+                 sample={'dom': 'real', 'exponent': n, 'spellings': [S.tm_str(e) for e in terms[:3]]} if k < 1 and spec['i'] == 0 else None)
+
+
 def run_levels(ctx, spec):
     """W-HIST for conversions whose behaviour depends on how much of the theory is loaded (nat.norm_full: identity /
     AC for addition / full semiring).  The same terms are normalised under a limited theory and under the full one,
@@ -557,6 +736,8 @@ def run_shard(ctx, spec):
         run_comb(ctx, spec)
     elif k == 'levels':
         run_levels(ctx, spec)
+    elif k == 'spell':
+        run_spell(ctx, spec)
     else:
         run_lib(ctx, spec)
 
